@@ -222,7 +222,7 @@ func (p *Path) deepCopy(v Value, memo map[*Cell]*Cell) Value {
 		if x.isNil || x.len == 0 {
 			return SliceV{isNil: true}
 		}
-		if x.blob != nil {
+		if x.blob != nil || x.lazy != nil {
 			return x
 		}
 		vals := make([]Value, x.len)
